@@ -829,7 +829,7 @@ class DataFrame(_HasIndex):
         raise Unsupported("DataFrame.to_csv (codec) outside the VFS")
 
 
-SORT_NONDET = [True]
+SORT_NONDET = [False]  # see symnp.ARGSORT_NONDET
 SAMPLE_MODE = ["nondet"]
 
 
